@@ -63,6 +63,8 @@ def gen_sequence(rng, syms):
             # a compound multiplier: neither a number nor a bare parameter
             m = E.sym(rng.choice(syms))
             return {"kind": kind, "multiplier": rng.choice([E.op("mul", E.num(2), m), E.op("add", m, E.num(1))])}
+        if rng.random() < 0.15:
+            return {"kind": kind, "multiplier": E.num(rng.choice([Fraction(5, 2), Fraction(1, 2), Fraction(3, 2), Fraction(9, 4)]))}   # (natively: the float 2.5)
         return {"kind": kind, "multiplier": E.sym(rng.choice(syms)) if syms and rng.random() < 0.4 else E.num(rng.randint(1, 3))}
     if kind == "arithmetic":
         return {"kind": kind, "initial_term": p(), "difference": p()}
@@ -886,6 +888,10 @@ def native_numbers(doc, as_float=False):
             for k, v in list(rep["sequence"].items()):
                 if k in ("multiplier", "initial_term", "difference", "ratio"):     # the fields the schema admits numbers for
                     rep["sequence"][k] = conv(v)
+                    m = re.fullmatch(r"\(?(-?\d+)\s*/\s*(\d+)\)?", v) if isinstance(v, str) else None
+                    if m and int(m.group(2)) in (2, 4, 8) and not as_float:
+                        # a fraction a double holds exactly, handed over as a native FLOAT (multiplier: 2.5)
+                        rep["sequence"][k] = int(m.group(1)) / int(m.group(2))
         for c in n.get("children", []):
             go(c)
     go(d["program"])
